@@ -733,6 +733,8 @@ pub fn run_check(ctx: &mut Ctx) {
     ctx.health(f * 100 / total >= 15, format!("cases with a failing test: {}%", f * 100 / total));
     let r = ctx.label_count("revisited-code");
     ctx.health(r * 100 / total >= 10, format!("cases with revisited code: {}%", r * 100 / total));
+    let lb = ctx.label_count("subroutines-in-library-segment");
+    ctx.health(total < 1000 || lb * 100 / total >= 3, format!("cases with the subroutines in a library segment: {}%", lb * 100 / total));
     let ex = ctx.label_count("excluded:verdict-depends-on-later-visit");
     ctx.excluded.insert("assertions that hold on the first visit and fail on a later one (recorded finding)".into(), ex);
 }
